@@ -2,8 +2,9 @@
 from __future__ import annotations
 
 import ast
+import re
 
-from ..core import INCONCLUSIVE, OK, VIOLATION, Ctx, canon, is_self_attr, local_defs
+from ..core import INCONCLUSIVE, OK, VIOLATION, Ctx, bool_equiv, canon, cond_is, eval_under, is_self_attr, local_defs
 from ..model import AnalysisError, body_walk, norm
 from .common import calls_method
 
@@ -56,11 +57,13 @@ def r07_1(ctx: Ctx):
         raise AnalysisError(f"_do_sprout contains {len(calls)} init_from_config calls (1 confirmed by hand)")
     call = calls[0]
     # loops: for deme, cands in seeds.items(): ... for ind in cands.individuals:
-    outer = [n for n in body_walk(f.node) if isinstance(n, ast.For) and norm(n.iter) == f"{seeds_p}.items()" and isinstance(n.target, ast.Tuple) and len(n.target.elts) == 2]
+    # normalised form: for deme in seeds.keys(): ... for ind in seeds[deme].individuals:
+    outer = [n for n in body_walk(f.node) if isinstance(n, ast.For) and norm(n.iter) in (f"{seeds_p}.keys()", seeds_p) and isinstance(n.target, ast.Name)]
     if len(outer) != 1:
-        return [ctx.ob("R07.1", f, f.node, status=INCONCLUSIVE, detail="cannot find `for deme, candidates in seeds.items()`", construct="outer-loop")]
-    deme_v, cand_v = outer[0].target.elts[0].id, outer[0].target.elts[1].id
-    inner = [n for n in ast.walk(outer[0]) if isinstance(n, ast.For) and n is not outer[0] and norm(n.iter) == f"{cand_v}.individuals" and isinstance(n.target, ast.Name)]
+        return [ctx.ob("R07.1", f, f.node, status=INCONCLUSIVE, detail="cannot find the loop over the parents of the seeds mapping", construct="outer-loop")]
+    deme_v = outer[0].target.id
+    cand_v = f"{seeds_p}[{deme_v}]"
+    inner = [n for n in ast.walk(outer[0]) if isinstance(n, ast.For) and n is not outer[0] and canon(n.iter, defs) == f"{cand_v}.individuals" and isinstance(n.target, ast.Name)]
     if len(inner) != 1 or not any(x is call for x in ast.walk(inner[0])):
         encl = [n for n in ast.walk(outer[0]) if isinstance(n, ast.For) and n is not outer[0] and any(x is call for x in ast.walk(n))]
         if encl:
@@ -113,7 +116,18 @@ def r07_2(ctx: Ctx):
     d = f.params()[1]
     defs = local_defs(f)
     obs = []
-    rets = [r for r in body_walk(f.node) if isinstance(r, ast.Return)]
+    rets0 = [r for r in body_walk(f.node) if isinstance(r, ast.Return)]
+    rets = []
+    root_test_ifexp = None
+    for r in rets0:
+        if isinstance(r.value, ast.IfExp):
+            root_test_ifexp = r.value.test
+            for arm in (r.value.body, r.value.orelse):
+                rr = ast.Return(value=arm)
+                ast.copy_location(rr, r)
+                rets.append(rr)
+        else:
+            rets.append(r)
     suffix_ok = True
     root_branch = prefixed = False
     for r in rets:
@@ -140,7 +154,7 @@ def r07_2(ctx: Ctx):
         obs.append(ctx.ob("R07.2", f, f.node, detail="id suffix = len(levels[parent.level + 1])", construct="suffix"))
     obs.append(ctx.ob("R07.2", f, f.node, status=OK if (root_branch and prefixed) else VIOLATION, detail="root children get the bare suffix, deeper demes `<parent id>/<suffix>`" if (root_branch and prefixed) else "non-root ids are no longer prefixed with the parent's id (or the root case is missing)", construct="prefix"))
     # root test
-    tests = [n.test for n in body_walk(f.node) if isinstance(n, ast.If)]
+    tests = [n.test for n in body_walk(f.node) if isinstance(n, ast.If)] + ([root_test_ifexp] if root_test_ifexp is not None else [])
     ok_root = any(norm(t).replace('"', "'") == f"{d}.id == 'root'" for t in tests)
     obs.append(ctx.ob("R07.2", f, f.node, status=OK if ok_root else INCONCLUSIVE, detail="prefix omitted exactly for children of 'root'" if ok_root else "cannot recognise the root test", construct="root-test"))
     # in _do_sprout: an append to the level follows each id computation within the same iteration (checked by R07.1 register-level)
@@ -202,13 +216,24 @@ def r07_3(ctx: Ctx):
             obs.append(ctx.ob("R07.3", sc, sc.node, status=VIOLATION, detail=f"level config class {sc.name} has no engine in CONFIG_CLASS_TO_DEME_CLASS", construct=f"missing:{sc.name}"))
     f = P.func("pyhms.demes.initialize", "init_from_config")
     defs = local_defs(f)
-    idx = [n for n in body_walk(f.node) if isinstance(n, ast.Subscript) and isinstance(n.value, ast.Name) and norm(n.slice) == f"type({f.params()[0]})"]
-    ok = len(idx) >= 1
-    built_in_included = False
-    if ok:
-        table = _resolve(idx[0].value, defs)
-        built_in_included = "CONFIG_CLASS_TO_DEME_CLASS" in norm(table)
-    obs.append(ctx.ob("R07.3", f, idx[0] if idx else f.node, status=OK if (ok and built_in_included) else VIOLATION, detail="engine class = registry[type(config)]" if (ok and built_in_included) else "the engine is not looked up by type(config) in a table containing the built-in registry", construct="lookup"))
+    keys = (f"type({f.params()[0]})", f"{f.params()[0]}.__class__")
+    idx = [n for n in body_walk(f.node) if isinstance(n, ast.Subscript) and canon(n.slice, defs) in keys]
+    tables = [n.value for n in idx]
+    for n in body_walk(f.node):
+        if isinstance(n, ast.Call) and isinstance(n.func, ast.Attribute) and n.func.attr == "get" and n.args and canon(n.args[0], defs) in keys:
+            idx.append(n)
+            tables.append(n.func.value)
+    if not idx:
+        st = INCONCLUSIVE
+    else:
+        tt = canon(tables[0], defs)
+        if "CONFIG_CLASS_TO_DEME_CLASS" in tt:
+            st = OK
+        elif tt == f.params()[-1] or tt in f.params():
+            st = VIOLATION  # only the user's table is consulted
+        else:
+            st = INCONCLUSIVE
+    obs.append(ctx.ob("R07.3", f, idx[0] if idx else f.node, status=st, detail="engine class = registry[type(config)]" if st == OK else "the engine is not looked up by type(config) in a table containing the built-in registry" if st == VIOLATION else "cannot find the registry lookup by type(config)", construct="lookup"))
     # the looked-up class is instantiated with the init args built from the parameters
     dia = [c for c in body_walk(f.node) if isinstance(c, ast.Call) and norm(c.func) == "DemeInitArgs"]
     if len(dia) != 1:
@@ -301,19 +326,83 @@ def r07_5(ctx: Ctx):
     obs = []
     for k, alts in want.items():
         v = _kw(c, k)
-        r = _resolve(v, defs) if v is not None else None
-        ok = r is not None and norm(r) in alts
-        obs.append(ctx.ob("R07.5", f, v if v is not None else c, status=OK if ok else VIOLATION, detail=f"root {k} = {alts[0]}" if ok else f"the root is built with {k}=`{norm(r) if r is not None else 'missing'}` (expected {alts[0]})", construct=f"root:{k}"))
+        t = canon(v, defs) if v is not None else None
+        alts_c = tuple(a.replace(" ", "") for a in alts)
+        if t is not None and (t in alts_c or t.replace('"', "'") in alts_c):
+            st = OK
+        elif v is None and any(kw.arg is None for kw in c.keywords):
+            st = INCONCLUSIVE  # passed through **kwargs
+        elif v is None:
+            st = VIOLATION if k != "sprout_seed" else INCONCLUSIVE
+        else:
+            r = ast.parse(t, mode="eval").body if t else v
+            definite = isinstance(r, ast.Constant) or (k == "config" and re.search(r"levels\[-?\d+\]$", t) is not None)
+            st = VIOLATION if definite else INCONCLUSIVE
+        obs.append(ctx.ob("R07.5", f, v if v is not None else c, status=st, detail=f"root {k} = {alts[0]}" if st == OK else f"the root is built with {k}=`{t if t is not None else 'missing'}` (expected {alts[0]})", construct=f"root:{k}"))
     pd = _kw(c, "parent_deme")
-    if pd is not None and norm(pd) != "None":
+    if pd is not None and canon(pd, defs) != "None":
         obs.append(ctx.ob("R07.5", f, pd, status=VIOLATION, detail="the root is given a parent", construct="root:parent"))
-    names = [t.id for n in body_walk(f.node) if isinstance(n, ast.Assign) and n.value is c for t in n.targets if isinstance(t, ast.Name)]
-    apps = [x for x in body_walk(f.node) if isinstance(x, ast.Call) and isinstance(x.func, ast.Attribute) and x.func.attr == "append" and norm(x.func.value) in (f"{selfn}._levels[0]",) and names and [norm(a) for a in x.args] == [names[0]]]
-    obs.append(ctx.ob("R07.5", f, apps[0] if apps else c, status=OK if len(apps) == 1 else VIOLATION, detail="root appended once to levels[0]" if len(apps) == 1 else "the root is not appended exactly once to levels[0]", construct="root:register"))
+    names = [t.id for n in body_walk(f.node) if isinstance(n, (ast.Assign, ast.AnnAssign)) and n.value is c for t in (n.targets if isinstance(n, ast.Assign) else [n.target]) if isinstance(t, ast.Name)]
+    lv0 = (f"{selfn}._levels[0]", f"{selfn}.levels[0]")
+    apps = [x for x in body_walk(f.node) if isinstance(x, ast.Call) and isinstance(x.func, ast.Attribute) and x.func.attr == "append" and norm(x.func.value) in lv0 and len(x.args) == 1 and (x.args[0] is c or (names and norm(x.args[0]) == names[0]))]
+    other_uses = [x for x in body_walk(f.node) if isinstance(x, ast.Name) and names and x.id == names[0] and isinstance(x.ctx, ast.Load) and not any(x is a.args[0] for a in apps)]
+    if len(apps) == 1:
+        st = OK
+    elif len(apps) > 1 or (not apps and names and not other_uses):
+        st = VIOLATION
+    else:
+        st = INCONCLUSIVE
+    obs.append(ctx.ob("R07.5", f, apps[0] if apps else c, status=st, detail="root appended once to levels[0]" if st == OK else "the root is not appended exactly once to levels[0]" if st == VIOLATION else "cannot follow how the root deme is registered in levels[0]", construct="root:register"))
     inloop = any(isinstance(n, (ast.For, ast.While)) and any(x is c for x in ast.walk(n)) for n in body_walk(f.node))
     if inloop:
         obs.append(ctx.ob("R07.5", f, c, status=VIOLATION, detail="root construction inside a loop", construct="root:once"))
     return obs
+
+
+
+def _levels_slice(it: ast.AST, tp: str, defs, allowed) -> str:
+    """Classify an iteration over <tp>.levels: 'ok' = all levels but the last k (k in allowed; a negative entry -k means
+    the single level [-k]), 'bad' = provably includes the last level / other levels, 'unknown' otherwise."""
+    import copy
+
+    from ..core import _Subst
+
+    e = _Subst(defs, 4).visit(copy.deepcopy(it)) if defs else it
+    for fn in ("list", "tuple", "iter"):
+        if isinstance(e, ast.Call) and norm(e.func) == fn and len(e.args) == 1:
+            e = e.args[0]
+    if norm(e) in (f"{tp}.levels", f"{tp}._levels"):
+        return "bad"
+    if not (isinstance(e, ast.Subscript) and norm(e.value) in (f"{tp}.levels", f"{tp}._levels")):
+        return "unknown"
+    sl = e.slice
+    h = (f"{tp}.height", f"len({tp}.levels)", f"len({tp}._levels)")
+
+    def last_k(x):
+        """x denotes index height-k -> k (k=0 means one past the last)"""
+        if x is None:
+            return 0
+        if isinstance(x, ast.UnaryOp) and isinstance(x.op, ast.USub) and isinstance(x.operand, ast.Constant) and isinstance(x.operand.value, int):
+            return x.operand.value
+        if isinstance(x, ast.BinOp) and isinstance(x.op, ast.Sub) and norm(x.left) in h and isinstance(x.right, ast.Constant) and isinstance(x.right.value, int):
+            return x.right.value
+        if norm(x) in h:
+            return 0
+        return None
+
+    if isinstance(sl, ast.Slice):
+        if sl.step is not None and not (isinstance(sl.step, ast.Constant) and sl.step.value == 1):
+            return "unknown"
+        if sl.lower is not None and not (isinstance(sl.lower, ast.Constant) and sl.lower.value == 0):
+            return "bad" if last_k(sl.upper) == 0 else "unknown"
+        k = last_k(sl.upper)
+        if k is None:
+            return "unknown"
+        return "ok" if k in allowed else "bad"
+    k = last_k(sl)
+    if k is None:
+        return "unknown"
+    return "ok" if -k in allowed else "bad"
 
 
 def r07_6(ctx: Ctx):
@@ -322,26 +411,38 @@ def r07_6(ctx: Ctx):
     f = ctx.prog.own_method("DemeTree", "_next_child_id")
     d = f.params()[1]
     sn = f.self_name()
-    ok = False
-    for n in body_walk(f.node):
-        if isinstance(n, ast.If) and any(isinstance(x, ast.Raise) for x in n.body):
-            t = norm(n.test).replace(" ", "")
-            if t in (f"{d}.level>={sn}.height-1", f"{d}.level+1>={sn}.height", f"{d}.level>={len}" if False else f"{d}.level>=len({sn}.levels)-1", f"{d}.level>{sn}.height-2"):
-                ok = True
-    obs.append(ctx.ob("R07.6", f, f.node, status=OK if ok else VIOLATION, detail="raises for parents on the last level" if ok else "_next_child_id no longer refuses parents on the last configured level", construct="leaf-guard"))
-    for cname, allowed in (("BestPerDeme", ("[:-1]",)), ("NBC_Generator", ("[:-1]",)), ("NBCGeneratorWithLocalMethod", ("[:-2]", "[-2]"))):
+    defs = local_defs(f)
+    wanted = [f"{d}.level >= {sn}.height - 1", f"{d}.level >= len({sn}.levels) - 1", f"{d}.level >= len({sn}._levels) - 1", f"{d}.level >= len({sn}.config.levels) - 1"]
+    guards = [n for n in body_walk(f.node) if isinstance(n, ast.If) and any(isinstance(x, ast.Raise) for x in n.body)]
+    ok = any(cond_is(n.test, w, defs) for n in guards for w in wanted)
+    if ok:
+        obs.append(ctx.ob("R07.6", f, f.node, detail="raises for parents on the last level", construct="leaf-guard"))
+    elif not guards:
+        obs.append(ctx.ob("R07.6", f, f.node, status=VIOLATION, detail="_next_child_id no longer refuses parents on the last configured level (no raising guard left)", construct="leaf-guard"))
+    else:
+        # positive evidence: the guard still compares the level with the height but admits the last level
+        weaker = [f"{d}.level >= {sn}.height", f"{d}.level > {sn}.height - 1", f"{d}.level > {sn}.height", f"{d}.level >= {sn}.height + 1"]
+        if any(cond_is(n.test, w, defs) for n in guards for w in weaker):
+            obs.append(ctx.ob("R07.6", f, guards[0], status=VIOLATION, detail=f"_next_child_id no longer refuses parents on the last configured level: the guard is `{norm(guards[0].test)}`", construct="leaf-guard"))
+        else:
+            obs.append(ctx.ob("R07.6", f, guards[0], status=INCONCLUSIVE, detail=f"cannot relate the guard `{norm(guards[0].test)}` to `level >= height - 1`", construct="leaf-guard"))
+    for cname, allowed in (("BestPerDeme", (1,)), ("NBC_Generator", (1,)), ("NBCGeneratorWithLocalMethod", (2, -2))):
         g = ctx.prog.cls(cname).methods["__call__"]
         tp = g.params()[1]
+        gdefs = local_defs(g)
         iters = []
         for n in body_walk(g.node):
-            if isinstance(n, (ast.For, ast.comprehension)) and f"{tp}.levels" in norm(n.iter):
+            if isinstance(n, (ast.For, ast.comprehension)) and f"{tp}.levels" in canon(n.iter, gdefs):
                 iters.append(n.iter)
-        bad = [i for i in iters if not any(norm(i) == f"{tp}.levels{a}" for a in allowed)]
         if not iters:
             obs.append(ctx.ob("R07.6", g, g.node, status=INCONCLUSIVE, detail=f"{cname}: no iteration over tree.levels found", construct=f"{cname}:levels"))
-        for b in bad:
-            obs.append(ctx.ob("R07.6", g, b, status=VIOLATION, detail=f"{cname} iterates `{norm(b)}`: demes on the last level (or the wrong levels) are offered as parents", construct=f"{cname}:levels"))
-        if iters and not bad:
+        verdicts = [_levels_slice(i, tp, gdefs, allowed) for i in iters]
+        for i, v in zip(iters, verdicts):
+            if v == "bad":
+                obs.append(ctx.ob("R07.6", g, i, status=VIOLATION, detail=f"{cname} iterates `{norm(i)}`: demes on the last level (or the wrong levels) are offered as parents", construct=f"{cname}:levels"))
+            elif v == "unknown":
+                obs.append(ctx.ob("R07.6", g, i, status=INCONCLUSIVE, detail=f"{cname} iterates `{norm(i)}`: cannot tell which levels these are", construct=f"{cname}:levels"))
+        if iters and all(v == "ok" for v in verdicts):
             obs.append(ctx.ob("R07.6", g, iters[0], detail=f"{cname} iterates {', '.join(norm(i) for i in iters)}", construct=f"{cname}:levels"))
     return obs
 
@@ -427,6 +528,36 @@ def r07_7(ctx: Ctx):
     return obs
 
 
+def _seed_expr(init, defs):
+    """Text of the expression tested against None to tell a sprouted deme from the root (through local flags)."""
+    import copy
+
+    from ..core import _Subst
+
+    for n in body_walk(init.node):
+        if isinstance(n, (ast.If, ast.IfExp)):
+            te = _Subst(defs, 4).visit(copy.deepcopy(n.test))
+            seeds = [x for x in ast.walk(te) if (isinstance(x, ast.Attribute) and x.attr in ("sprout_seed", "_sprout_seed")) or (isinstance(x, ast.Name) and x.id in ("sprout_seed", "seed"))]
+            if seeds:
+                return norm(seeds[0])
+    return None
+
+
+def _specialise(stmts, defs, seedx, seeded: bool):
+    """The statements executed when the seed is / is not None: branches on the seed test are resolved, everything else kept."""
+    out = []
+    for s in stmts:
+        if isinstance(s, ast.If):
+            if cond_is(s.test, f"{seedx} is None", defs):
+                out.extend(_specialise(s.orelse if seeded else s.body, defs, seedx, seeded))
+                continue
+            if cond_is(s.test, f"{seedx} is not None", defs) or cond_is(s.test, seedx, defs):
+                out.extend(_specialise(s.body if seeded else s.orelse, defs, seedx, seeded))
+                continue
+        out.append(s)
+    return out
+
+
 def r07_8(ctx: Ctx):
     """R07.8 seeded population demes: pop_size - 1 sampled around the seed + one individual carrying the seed's genome; then evaluated and recorded."""
     obs = []
@@ -437,59 +568,108 @@ def r07_8(ctx: Ctx):
             continue
         sn = init.self_name()
         cps = [c for c in body_walk(init.node) if isinstance(c, ast.Call) and norm(c.func).endswith("create_population")]
-        if len(cps) < 2:
+        if not cps:
             continue
         found += 1
         defs = local_defs(init)
-        # branch on the seed
-        ifs = [n for n in body_walk(init.node) if isinstance(n, ast.If) and "sprout_seed" in norm(n.test)]
-        if len(ifs) != 1:
+        seedx = _seed_expr(init, defs)
+        if seedx is None:
             obs.append(ctx.ob("R07.8", init, init.node, status=INCONCLUSIVE, detail=f"{ci.name}: cannot find the seeded / unseeded branch", construct=f"{ci.name}:branch"))
             continue
-        br = ifs[0]
-        t = norm(br.test)
-        seeded = br.orelse if t.endswith("is None") else br.body if t.endswith("is not None") else None
-        unseeded = br.body if t.endswith("is None") else br.orelse if t.endswith("is not None") else None
-        if seeded is None:
-            obs.append(ctx.ob("R07.8", init, br, status=INCONCLUSIVE, detail=f"{ci.name}: unrecognised seed test `{t}`", construct=f"{ci.name}:branch"))
-            continue
+        assume = f"{seedx} is None"
+        seeded = _specialise(init.node.body, defs, seedx, True)
+        unseeded = _specialise(init.node.body, defs, seedx, False)
+        br = init.node
         s_calls = [c for s in seeded for c in ast.walk(s) if isinstance(c, ast.Call) and norm(c.func).endswith("create_population")]
         u_calls = [c for s in unseeded for c in ast.walk(s) if isinstance(c, ast.Call) and norm(c.func).endswith("create_population")]
-        ok_u = len(u_calls) == 1 and norm(u_calls[0].args[0]) == f"{sn}._pop_size"
-        obs.append(ctx.ob("R07.8", init, u_calls[0] if u_calls else br, status=OK if ok_u else VIOLATION, detail=f"{ci.name}: unseeded population has pop_size individuals" if ok_u else f"{ci.name}: the unseeded population is created with size `{norm(u_calls[0].args[0]) if u_calls else '?'}`", construct=f"{ci.name}:unseeded-size"))
-        ok_s = len(s_calls) == 1 and norm(s_calls[0].args[0]).replace(" ", "") == f"{sn}._pop_size-1"
-        obs.append(ctx.ob("R07.8", init, s_calls[0] if s_calls else br, status=OK if ok_s else VIOLATION, detail=f"{ci.name}: seeded population samples pop_size - 1 individuals" if ok_s else f"{ci.name}: the seeded population samples `{norm(s_calls[0].args[0]) if s_calls else '?'}` individuals (pop_size - 1 expected)", construct=f"{ci.name}:seeded-size"))
+        bdefs = {}
+        for s in seeded:
+            for n in ast.walk(s):
+                if isinstance(n, ast.Assign) and len(n.targets) == 1 and isinstance(n.targets[0], ast.Name):
+                    bdefs.setdefault(n.targets[0].id, []).append(n.value)
+        udefs = {}
+        for s in unseeded:
+            for n in ast.walk(s):
+                if isinstance(n, ast.Assign) and len(n.targets) == 1 and isinstance(n.targets[0], ast.Name):
+                    udefs.setdefault(n.targets[0].id, []).append(n.value)
+        alld = dict(defs)
+        alld.update(bdefs)
+        ualld = dict(defs)
+        ualld.update(udefs)
+
+        def res_s(e):
+            return eval_under(e, alld, assume, False) if e is not None else None
+
+        def res_u(e):
+            return eval_under(e, ualld, assume, True) if e is not None else None
+
+        pop = f"{sn}._pop_size"
+        cfgpop = re.compile(r"^[A-Za-z_][A-Za-z_0-9.]*\.pop_size$")
+
+        def size_status(calls, want_minus_one: bool, res, dd):
+            if len(calls) != 1 or not calls[0].args:
+                return INCONCLUSIVE, "?"
+            t = canon(res(calls[0].args[0]), dd)
+            base = t[:-2] if t.endswith("-1") else t
+            is_pop = base == pop or bool(cfgpop.match(base))
+            if is_pop and (t.endswith("-1") == want_minus_one):
+                return OK, t
+            # positive evidence of a wrong size: still an expression of pop_size only, but not the wanted one
+            if re.fullmatch(r"(%s|[A-Za-z_][A-Za-z_0-9.]*\.pop_size)([-+*/]+\d+)?" % re.escape(pop), t) or re.fullmatch(r"\d+", t):
+                return VIOLATION, t
+            return INCONCLUSIVE, t
+
+        st, t = size_status(u_calls, False, res_u, ualld)
+        obs.append(ctx.ob("R07.8", init, u_calls[0] if u_calls else br, status=st, detail=f"{ci.name}: unseeded population has pop_size individuals" if st == OK else f"{ci.name}: the unseeded population is created with size `{t}`", construct=f"{ci.name}:unseeded-size"))
+        st, t = size_status(s_calls, True, res_s, alld)
+        obs.append(ctx.ob("R07.8", init, s_calls[0] if s_calls else br, status=st, detail=f"{ci.name}: seeded population samples pop_size - 1 individuals" if st == OK else f"{ci.name}: the seeded population samples `{t}` individuals (pop_size - 1 expected)", construct=f"{ci.name}:seeded-size"))
         # the seed individual
         pop_names = [tt.id for s in seeded for n in ast.walk(s) if isinstance(n, ast.Assign) and s_calls and n.value is s_calls[0] for tt in n.targets if isinstance(tt, ast.Name)]
         appends = [c for s in seeded for c in ast.walk(s) if isinstance(c, ast.Call) and isinstance(c.func, ast.Attribute) and c.func.attr == "append" and pop_names and norm(c.func.value) == pop_names[0]]
-        ok_app = False
+        st_app = VIOLATION
         why = "the seed is not appended to the sampled population"
-        if len(appends) == 1 and appends[0].args:
+        if not pop_names:
+            st_app, why = INCONCLUSIVE, "cannot follow the sampled population to the place where the seed joins it"
+        elif len(appends) == 1 and appends[0].args:
             a = appends[0].args[0]
-            bdefs = {}
-            for s in seeded:
-                for n in ast.walk(s):
-                    if isinstance(n, ast.Assign) and len(n.targets) == 1 and isinstance(n.targets[0], ast.Name):
-                        bdefs.setdefault(n.targets[0].id, []).append(n.value)
-            r = _resolve(a, bdefs)
-            if isinstance(r, ast.Call) and norm(r.func).endswith("Individual") and r.args:
-                g0 = _resolve(r.args[0], bdefs)
-                if norm(g0).endswith("sprout_seed.genome"):
-                    ok_app = True
+            r = res_s(a)
+            if isinstance(r, ast.Call) and norm(r.func).endswith("Individual") and (r.args or _kw(r, "genome") is not None):
+                g0 = res_s(r.args[0] if r.args else _kw(r, "genome"))
+                g0t = canon(g0, alld)
+                if g0t.endswith("sprout_seed.genome") or re.fullmatch(r"(np\.)?(copy|array|asarray)\([A-Za-z_0-9.]*sprout_seed\.genome\)|[A-Za-z_0-9.]*sprout_seed\.genome\.copy\(\)", g0t):
+                    st_app = OK
                 else:
                     why = f"the appended individual's genome is `{norm(g0)}`, not the seed's genome"
-            elif norm(r).endswith("sprout_seed"):
-                ok_app = True
+            elif canon(r, alld).endswith("sprout_seed"):
+                st_app = OK
+            else:
+                st_app, why = INCONCLUSIVE, f"cannot tell what `{norm(a)}` appended to the seeded population is"
+        elif len(appends) > 1:
+            st_app, why = INCONCLUSIVE, "several appends to the seeded population"
+        else:
+            # other ways of joining the seed (concatenation, insert, list literal): not recognised
+            others = [c for s in seeded for c in ast.walk(s) if isinstance(c, (ast.Call, ast.BinOp, ast.AugAssign)) and pop_names[0] in {x.id for x in ast.walk(c) if isinstance(x, ast.Name)} and "sprout_seed" in canon(c, alld)]
+            if others:
+                st_app, why = INCONCLUSIVE, f"the seed seems to join the population through `{norm(others[0])[:60]}` (unrecognised form)"
         # the append must be unconditional within the seeded branch
         cond_app = appends and not any(isinstance(s, ast.Expr) and s.value is appends[0] for s in seeded)
-        if ok_app and cond_app:
-            ok_app, why = False, "the seed is appended only conditionally"
-        obs.append(ctx.ob("R07.8", init, appends[0] if appends else br, status=OK if ok_app else VIOLATION, detail=f"{ci.name}: the initial population contains the sprout seed" if ok_app else f"{ci.name}: {why}", construct=f"{ci.name}:seed-appended"))
+        if st_app == OK and cond_app:
+            st_app, why = VIOLATION, "the seed is appended only conditionally"
+        obs.append(ctx.ob("R07.8", init, appends[0] if appends else br, status=st_app, detail=f"{ci.name}: the initial population contains the sprout seed" if st_app == OK else f"{ci.name}: {why}", construct=f"{ci.name}:seed-appended"))
         # sampled around the seed
         if s_calls:
             ini = _kw(s_calls[0], "initialize")
-            okc = isinstance(ini, ast.Call) and norm(ini.func) == "sample_normal" and ini.args and norm(_resolve(ini.args[0], bdefs if 'bdefs' in dir() else {})).endswith("sprout_seed.genome")
-            obs.append(ctx.ob("R07.8", init, ini if ini is not None else s_calls[0], status=OK if okc else VIOLATION, detail=f"{ci.name}: sampled around the seed's genome" if okc else f"{ci.name}: the seeded population is not sampled around the seed (`{norm(ini) if ini is not None else '?'}`)", construct=f"{ci.name}:centre"))
+            if ini is None and len(s_calls[0].args) > 1:
+                ini = s_calls[0].args[1]
+            r = res_s(ini)
+            st_c = INCONCLUSIVE
+            if isinstance(r, ast.Call) and norm(r.func) == "sample_normal":
+                c0 = r.args[0] if r.args else _kw(r, "center")
+                c0t = canon(c0, alld) if c0 is not None else "?"
+                st_c = OK if c0t.endswith("sprout_seed.genome") else VIOLATION
+            elif isinstance(r, ast.Call) and norm(r.func) == "sample_uniform":
+                st_c = VIOLATION
+            obs.append(ctx.ob("R07.8", init, ini if ini is not None else s_calls[0], status=st_c, detail=f"{ci.name}: sampled around the seed's genome" if st_c == OK else f"{ci.name}: the seeded population is not sampled around the seed (`{norm(r) if r is not None else '?'}`)", construct=f"{ci.name}:centre"))
     if found < 3:
         raise AnalysisError(f"only {found} population demes with seeded construction found (EA, DE, SHADE confirmed by hand)")
     return obs
